@@ -506,6 +506,14 @@ func vSameWorld(want, got vWorld, c *vConc) string {
 	return ""
 }
 
+// vPlainAddr: a net.Addr that is not one of the standard library's types
+type vPlainAddr string
+
+func (a vPlainAddr) Network() string { return "sim" }
+func (a vPlainAddr) String() string  { return string(a) }
+
+var vUdpAliveSeq int
+
 // act executes the edge's action through the real code
 func (in *vInst) act(e *vEdge) string {
 	m := in.m
@@ -532,9 +540,16 @@ func (in *vInst) act(e *vEdge) string {
 		if err != nil {
 			return "encode: " + err.Error()
 		}
-		src := &net.UDPAddr{IP: net.ParseIP("10.9.9.9"), Port: 7946}
+		// the source address as the transport reports it: a *net.UDPAddr, or (every other edge) any other
+		// net.Addr implementation that prints as host:port - custom transports are free to use their own
+		host := "10.9.9.9"
 		if !e.SrcOk {
-			src = &net.UDPAddr{IP: net.ParseIP("172.16.3.4"), Port: 7946}
+			host = "172.16.3.4"
+		}
+		var src net.Addr = &net.UDPAddr{IP: net.ParseIP(host), Port: 7946}
+		vUdpAliveSeq++
+		if vUdpAliveSeq%2 == 0 {
+			src = vPlainAddr(net.JoinHostPort(host, "7946"))
 		}
 		m.handleAlive(buf.Bytes()[1:], src)
 	case "stalefire":
